@@ -169,7 +169,7 @@ def run_traced(ctx, root, patterns, driver="binary", cfg_args=(), env_extra=None
         hang = False
     except subprocess.TimeoutExpired:
         rc, se, so, hang = -1, "timeout", "", True
-    crashed = hang or "panic:" in se or "fatal error:" in se or "internal error" in se
+    crashed = hang or vlib.crashed(se)
     if driver == "binary":
         ok = (not crashed) and rc == 0
     else:
